@@ -154,6 +154,12 @@ impl<K: Eq + Hash, V> DashMap<K, V> {
         }
     }
 
+    pub fn entry<'a>(&'a self, k: K) -> mapref::entry::Entry<'a, K, V> {
+        let i = self.idx(&k);
+        let g = self.shards[i].write();
+        mapref::entry::Entry { g, key: k }
+    }
+
     pub fn iter(&self) -> iter::Iter<'_, K, V> {
         iter::Iter { map: self, shard: 0, cur: None }
     }
@@ -249,6 +255,53 @@ pub mod mapref {
         impl<'a, K, V> std::ops::DerefMut for RefMut<'a, K, V> {
             fn deref_mut(&mut self) -> &mut V {
                 self.value_mut()
+            }
+        }
+    }
+    pub mod entry {
+        use super::super::*;
+        use std::hash::Hash;
+        /// The entry API (subset): the shard stays write-locked while the entry is alive.
+        pub struct Entry<'a, K, V> {
+            pub(crate) g: RwLockWriteGuard<'a, Shard<K, V>>,
+            pub(crate) key: K,
+        }
+        impl<'a, K: Eq + Hash + Clone, V> Entry<'a, K, V> {
+            pub fn and_modify(mut self, f: impl FnOnce(&mut V)) -> Self {
+                if let Some(v) = self.g.get_mut(&self.key) {
+                    f(v);
+                }
+                self
+            }
+            pub fn or_insert_with(mut self, f: impl FnOnce() -> V) -> super::one::RefMut<'a, K, V> {
+                if !self.g.contains_key(&self.key) {
+                    self.g.insert(self.key.clone(), f());
+                }
+                let (kp, vp) = {
+                    let (k, v) = self.g.get_key_value(&self.key).unwrap();
+                    (k as *const K, v as *const V as *mut V)
+                };
+                super::one::RefMut { _g: self.g, k: kp, v: vp }
+            }
+            pub fn or_insert(self, v: V) -> super::one::RefMut<'a, K, V> {
+                self.or_insert_with(|| v)
+            }
+            pub fn or_default(self) -> super::one::RefMut<'a, K, V>
+            where
+                V: Default,
+            {
+                self.or_insert_with(V::default)
+            }
+            pub fn insert(mut self, v: V) -> super::one::RefMut<'a, K, V> {
+                self.g.insert(self.key.clone(), v);
+                let (kp, vp) = {
+                    let (k, v) = self.g.get_key_value(&self.key).unwrap();
+                    (k as *const K, v as *const V as *mut V)
+                };
+                super::one::RefMut { _g: self.g, k: kp, v: vp }
+            }
+            pub fn key(&self) -> &K {
+                &self.key
             }
         }
     }
